@@ -222,11 +222,14 @@ def gen_context(rng, cx, t, opts, st, depth):
         if w > s:
             st.tainted = True
     elif cx == 'split':
-        pred = rng.choice(['div:%d', 'divt:%d', 'divs:%d', 'divbig:%d', 'divpar:%d', 'divnp:%d', 'divbool:%d', 'divcent:%d', 'divnone:%d']) % _k(rng) if t == 'i' else 'digpar:%d' % _k(rng, 10, 40)
+        pred = rng.choice(['div:%d', 'divt:%d', 'divs:%d', 'divbig:%d', 'divpar:%d', 'divnp:%d', 'divbool:%d', 'divcent:%d', 'divnone:%d', 'divnan:%d']) % _k(rng) if t == 'i' else 'digpar:%d' % _k(rng, 10, 40)
         node = ['split', pred, inner]
     else:
         cfg = {'active': rng.choice([None, 3, 5, 8]), 'inactive': rng.choice([None, 2, 3, 4]),
                'closing': rng.choice([None, None, 'modeq:7:0', 'modeq:5:1']), 'include': rng.random() < 0.5}
+        tm = rng.choice(['id', 'id', 'dt', 'dtz'])
+        if tm != 'id':
+            cfg['time'] = tm        # the same instants as naive / timezone-aware datetimes (timeouts become timedeltas)
         node = ['time_split', cfg, inner]
     if inner_st.tainted:
         st.tainted = True
